@@ -11,6 +11,7 @@ import (
 	"bytes"
 	"encoding/json"
 	"fmt"
+	"math/big"
 	"os"
 	"strings"
 	"testing"
@@ -733,4 +734,93 @@ func init() {
 	}
 	replayers["(*TextLayout).ToBytes"] = toBytes
 	replayers["(*JSONLayout).ToBytes"] = toBytes
+}
+
+// ParseHumanizeBytes: digits followed by a unit of the table; a size that does not fit the integer type
+// must be an error, never a wrapped number (oracle computed with big integers).
+func init() {
+	replayers["ParseHumanizeBytes"] = func(in map[string]any) {
+		oracle := func(s string) string {
+			i := 0
+			for i < len(s) && s[i] >= '0' && s[i] <= '9' {
+				i++
+			}
+			num, unit := s[:i], strings.ToUpper(strings.TrimSpace(s[i:]))
+			m, known := map[string]int64{"B": 1, "KB": 1024, "MB": 1024 * 1024}[unit]
+			var got HumanizeBytes
+			var err error
+			var pan any
+			func() {
+				defer func() { pan = recover() }()
+				got, err = ParseHumanizeBytes(s)
+			}()
+			if pan != nil {
+				return fmt.Sprintf("ParseHumanizeBytes(%q) panics: %v", s, pan)
+			}
+			n, okNum := new(big.Int).SetString(num, 10)
+			if !okNum || !known {
+				if err == nil {
+					return fmt.Sprintf("ParseHumanizeBytes(%q) = %d, want an error (no number or unknown unit)", s, got)
+				}
+				return ""
+			}
+			want := new(big.Int).Mul(n, big.NewInt(m))
+			if !want.IsInt64() {
+				if err == nil {
+					return fmt.Sprintf("ParseHumanizeBytes(%q) = %d without error; the size is %s, which does not fit the integer type (silent wrap-around)", s, got, want)
+				}
+				return ""
+			}
+			if err != nil {
+				return fmt.Sprintf("ParseHumanizeBytes(%q) fails: %v, want %s", s, err, want)
+			}
+			if int64(got) != want.Int64() {
+				return fmt.Sprintf("ParseHumanizeBytes(%q) = %d, want %s", s, got, want)
+			}
+			return ""
+		}
+		if msg := oracle(rBytes(in["s"])); msg != "" {
+			fmt.Println("REPLAY: confirmed", msg)
+			return
+		}
+		for _, num := range []string{"0", "1", "10", "2147483648", "8796093022208", "9007199254740993", "9223372036854775807", "9223372036854775808"} {
+			for _, unit := range []string{"B", "KB", "MB", " kb", "GB", ""} {
+				if msg := oracle(num + unit); msg != "" {
+					fmt.Println("REPLAY: confirmed (bounded search over boundary numbers x units)", msg)
+					return
+				}
+			}
+		}
+		fmt.Println("REPLAY: not-reproduced")
+	}
+}
+
+// The bufferCap property: a size that does not fit the 32-bit capacity must be rejected, not truncated.
+func init() {
+	replayers["RegisterProperty(bufferCap)"] = func(in map[string]any) {
+		set := propertyRegistry["bufferCap"]
+		if set == nil {
+			fmt.Println("REPLAY: not-reproduced (no bufferCap property)")
+			return
+		}
+		saved := BufferCap.Load()
+		defer BufferCap.Store(saved)
+		for _, s := range []string{"2048MB", "4096MB", "4097MB", "2147483648B", "4194304KB", "6442450944B"} {
+			var err error
+			var pan any
+			func() {
+				defer func() { pan = recover() }()
+				err = set(s)
+			}()
+			if pan != nil {
+				fmt.Printf("REPLAY: confirmed bufferCap=%q panics: %v\n", s, pan)
+				return
+			}
+			if err == nil {
+				fmt.Printf("REPLAY: confirmed (bounded search over sizes around 2^31 and 2^32) bufferCap=%q is accepted and the capacity becomes %d (the size does not fit the 32-bit capacity; want an error)\n", s, BufferCap.Load())
+				return
+			}
+		}
+		fmt.Println("REPLAY: not-reproduced")
+	}
 }
